@@ -16,7 +16,10 @@ func init() { Registry["C16"] = C16 }
 func c16Base() core.Tree {
 	t := miniCRS()
 	t["regex-assembly/123458.ra"] = "last\nentry\n"
+	// the first file of every --all run stores a name; no other file may see it
+	t["regex-assembly/123450.ra"] = "sh\n##!=< shared\nared\n##!=> shared\n"
 	t["rules/REQUEST-123-TEST.conf"] = rulesFile(
+		ruleSpec{ID: "123450", Regex: "OLDSHARED"},
 		ruleSpec{ID: "123456", Regex: "OLD"},
 		ruleSpec{ID: "123457", Regex: "keep", Chain: []string{"OLDCHAIN"}},
 		ruleSpec{ID: "123458", Regex: "OLDLAST"})
@@ -47,6 +50,7 @@ var c16LineFaults = []struct{ Name, Line string }{
 	{"extra end marker", "##!<"},
 	{"missing end marker", "##!> assemble"},
 	{"unknown stored name", "##!=> neverstored"},
+	{"stored name of another file", "##!=> shared"},
 	{"store without name", "##!=<"},
 	{"unsupported flag", "##!+ x"},
 	{"odd replacement list", "##!> include inc -- a"},
@@ -234,7 +238,7 @@ func C16(r *core.Run) {
 			cmp := core.RunCLI(r.Crs, sb, "", nil, "-d", sb, "regex", "compare", "--all")
 			o.Runs += 3
 			if g.Exit != 0 || g.Stdout != "foo|bar" || u.Exit != 0 || !strings.Contains(string(conf), `"@rx foo|bar"`) || !strings.Contains(string(conf), `"@rx baz|qux"`) || !strings.Contains(string(conf), `"@rx last|entry"`) ||
-				cmp.Exit != 0 || strings.Count(cmp.Stdout, "has not changed") != 3 {
+				cmp.Exit != 0 || strings.Count(cmp.Stdout, "has not changed") != 4 {
 				o.Bad = append(o.Bad, c16Res{Case: c16Case{Fault: "none", Cmd: "fault-free run"}, Exit: u.Exit, Stdout: g.Stdout + "\n" + cmp.Stdout, Stderr: u.Stderr, Clauses: []string{"zero-exit-means-complete"}})
 			}
 		}
